@@ -29,6 +29,11 @@ def gen(rng, tier):
         for mk in mems:
             for alg in (1, 2):
                 add(alg, 32, t, 1024 * mk + (mk % 3) * 300, rbytes(rng, 8), rbytes(rng, 16), "grid/t=%d" % t)
+    # memory sizes whose segment (m/4 blocks) is longer than one address block (128) and not a multiple of it: the data-independent
+    # addressing of Argon2i / the first half of Argon2id crosses address-block boundaries inside a segment
+    for mk in ((516, 600, 1000, 1028) if tier == "quick" else (513, 516, 520, 600, 1000, 1023, 1028, 1500, 2052)):
+        for alg in (1, 2):
+            add(alg, 32, 3 if alg == 1 else 1, 1024 * mk, rbytes(rng, 8), rbytes(rng, 16), "segment-not-multiple-of-128")
     # pass counts across the 8-bit / 16-bit boundaries (a narrowed pass counter wraps there), small memory
     for t in [255, 256, 257, 258, 300, 513] + ([] if tier == "quick" else [65535, 65536, 65537]):
         for alg in (1, 2):
